@@ -2,13 +2,13 @@
 # confirm_seed.sh <patch> <demo.sh> : in the persistent scratch worktree /tmp/wt/confirm (HEAD of /repo's main),
 # verify: demo passes on clean tree; patch applies+compiles; pinned suite still passes; demo fails with the patch.
 P=$(realpath $1); D=$(realpath $2)
-W=/tmp/wt/confirm
+W=${CONFIRM_W:-/tmp/wt/confirm}
 if [ ! -d $W ]; then git -C /repo worktree add -q --detach $W main || exit 2; fi
 cd $W && git checkout -q -- . && git checkout -q --detach main || exit 2
-echo "== clean demo"; timeout 900 bash $D $W </dev/null >/tmp/wt/confirm.demo0.log 2>&1; d0=$?
+echo "== clean demo"; timeout 900 bash $D $W </dev/null >$W.demo0.log 2>&1; d0=$?
 git apply --3way $P 2>/dev/null || git apply $P || { echo "PATCH-DOES-NOT-APPLY"; exit 2; }
 git reset -q
 echo "== suite with patch"; /verif/tools/run_suite.sh $W $W/target; s=$?
-echo "== demo with patch"; timeout 900 bash $D $W </dev/null >/tmp/wt/confirm.demo1.log 2>&1; d1=$?
+echo "== demo with patch"; timeout 900 bash $D $W </dev/null >$W.demo1.log 2>&1; d1=$?
 git checkout -q -- .
 echo "RESULT demo_clean=$d0 suite=$s demo_patched=$d1 $( [ $d0 = 0 ] && [ $s = 0 ] && [ $d1 != 0 ] && echo CONFIRMED || echo NOT-CONFIRMED)"
